@@ -72,20 +72,33 @@ Theorem C12_fuel_monotone :
     Parse G f w <> PHang -> Parse G (f + k) w = Parse G f w.
 Proof. exact parse_fuel_mono. Qed.
 
-(** Termination.  Full statement: the loop terminates on every token list. *)
-Definition C12_terminates_full : Prop :=
+(** Termination: for a valid grammar with a conflict-free table the loop terminates on every
+    token list (sentence or not). *)
+Theorem C12_terminates :
   forall (G : gram), valid G -> forall M : table, BuildParsingTable G = Some (M, false) ->
     forall w, exists f0, forall f, f0 <= f -> Parse G f w <> PHang.
+Proof. exact parse_terminates. Qed.
 
-(** Proved: termination on every sentence (with acceptance, above), and by [C12_sound] a
-    run on a non-sentence can only end in a rejection.  Missing: that a run on a non-sentence
-    ends at all — this needs the absence of left-recursive expansion cycles under one lookahead
-    in a conflict-free table (also with unproductive non-terminals); the correspondence exercises
-    it with a 20000-step fuel on every rejected input and reports HANG otherwise. *)
-Theorem C12_terminates_partial :
+(** The property in one statement: for a conflict-free table, every run that is long enough
+    finishes, never with a panic, and it accepts (with the leftmost derivation) iff the input is
+    a sentence. *)
+Theorem C12_sound_complete :
   forall (G : gram), valid G -> forall M : table, BuildParsingTable G = Some (M, false) ->
-    forall w, sentence G w -> exists f0, forall f, f0 <= f -> Parse G f w <> PHang.
-Proof. exact parse_terminates_on_sentences. Qed.
+    forall w, exists f0, forall f, f0 <= f ->
+      Parse G f w <> PHang /\ Parse G f w <> PPanic /\
+      ((exists ps, Parse G f w = PAccept ps) <-> sentence G w) /\
+      (forall ps, Parse G f w = PAccept ps -> lm_derives G ps [Nt (start G)] (map Tm (word w))).
+Proof.
+  intros G HV M HB w.
+  destruct (parse_terminates G HV M HB w) as [f1 H1].
+  exists f1. intros f Hf. split; [now apply H1|]. split; [now apply (parse_no_panic G HV M HB)|]. split.
+  - split.
+    + intros [ps H]. now apply (parse_sound G f w ps).
+    + intros HS. destruct (parse_complete G HV M HB w HS) as [f0 H0].
+      destruct (H0 (f + f0)) as [ps Hps]; [apply PeanoNat.Nat.le_add_l|].
+      exists ps. rewrite <- Hps. symmetry. apply parse_fuel_mono. now apply H1.
+  - intros ps H. now apply (parse_sound G f w ps).
+Qed.
 
 (** Non-vacuity:  S → t0 accepts "t0" and rejects "t0 t0" (D12, fixed);
     S → t0 A ; A → t1 A | ε  on  t0 t1 t1. *)
@@ -112,4 +125,5 @@ Print Assumptions C12_ast.
 Print Assumptions C12_ast_yield.
 Print Assumptions C12_no_panic.
 Print Assumptions C12_fuel_monotone.
-Print Assumptions C12_terminates_partial.
+Print Assumptions C12_terminates.
+Print Assumptions C12_sound_complete.
